@@ -334,8 +334,8 @@ def c35(res, tier, seed):
          "law: every injection exhibits its defect class" % s, "c35", timeout=6000)
     res.exhaustive = True
     t = Traces(res, tier)
-    t.add(b, "mutants", 250 if tier == "quick" else 30000, seed, want="snap")
-    t.add(b, "fuzz", 250 if tier == "quick" else 30000, seed + 1)
+    t.add(b, "mutants", 160 if tier == "quick" else 30000, seed, want="snap")
+    t.add(b, "fuzz", 160 if tier == "quick" else 30000, seed + 1)
     t.finish()
     res.rule = (BASE_RULE % s + "plus, from each, every applicable one of ~110 invalidity injections (duplicate names/numbers, "
                 "invalid/overlapping ranges, reserved names/numbers, extension-range clashes, malformed maps/groups, oneof "
